@@ -150,8 +150,9 @@ def setup():
     for kind in ('sqlite', 'pg'):
         for lk in range(4):
             for fu in (False, True):
-                r = _run(kind, lk, fu, False, False, False, True, False, True, 0, 2, 0)
-                # (no assertion here: a violation must surface as a counterexample of a harness, not as a harness error)
+                # no assertion here: a violation must surface as a counterexample of a harness, not as a harness error
+                try: _run(kind, lk, fu, False, False, False, True, False, True, 0, 2, 0)
+                except Exception: pass
 
 
 def _cold(db):
